@@ -15,6 +15,7 @@ import (
 	"os"
 	"regexp"
 	"sort"
+	"strings"
 
 	"golang.org/x/tools/go/ssa"
 )
@@ -248,7 +249,20 @@ func (e *Engine) rebind(fc *FuncContract, res *FuncResult, accept func(*FuncResu
 		if !inLoops[missing] || depth > 3 {
 			return nil
 		}
-		for _, cand := range free {
+		cands := free
+		if missing == "rangeindex" {
+			// a range loop rewritten as an index loop: the hidden index of the range loop is the loop counter minus one
+			cands = nil
+			for _, n := range localNames(fn) {
+				if typeOf[n] == "int" {
+					cands = append(cands, n+"-1")
+				}
+			}
+		} else if fc.Locals[missing] == "int" && typeOf["rangeindex"] == "int" {
+			// an index loop rewritten as a range loop: the counter is the hidden index plus one
+			cands = append(append([]string{}, free...), "rangeindex+1")
+		}
+		for _, cand := range cands {
 			used := false
 			for _, v := range alias {
 				if v == cand {
@@ -258,7 +272,8 @@ func (e *Engine) rebind(fc *FuncContract, res *FuncResult, accept func(*FuncResu
 			if used || budget <= 0 {
 				continue
 			}
-			if want, ok := fc.Locals[missing]; ok && typeOf[cand] != want {
+			base := strings.TrimSuffix(strings.TrimSuffix(cand, "-1"), "+1")
+			if want, ok := fc.Locals[missing]; ok && typeOf[base] != want {
 				continue // the contract pinned the local's type: only a local of that type can be the renamed one
 			}
 			budget--
